@@ -29,7 +29,7 @@ CONFIGS = {
     "NIO": (["-p", "ohkami", "--lib", "--features", "rt_nio,sse,ws,openapi"], "", MEMBERS),
     "GLOMMIO": (["-p", "ohkami", "--lib", "--features", "rt_glommio,sse,ws,openapi"], "", MEMBERS),
     # without openapi (cfg(not(feature = "openapi")) variants of the handler plumbing)
-    "NOAPI": (["-p", "ohkami", "--lib", "--features", "rt_tokio,sse,ws"], "", MEMBERS),
+    "NOAPI": (["-p", "ohkami", "--lib", "--features", "rt_tokio,sse,ws"], "", [m for m in MEMBERS if m != "ohkami_openapi"]),
 }
 
 
